@@ -2,10 +2,12 @@
 
 Verdicts: a VIOLATION is reported for a definite conflict or difference only (every task writes the same cells with task-dependent values; a task
 reads what another one writes; an in-place operation on shared data outside the own slice; a stale process global; a content tree that differs
-from the serial one; block edges that reach the number of indices only in exact arithmetic).  A partition of the index space the rules do not
-understand (a task index mapped through something else than the identity or recognised consecutive blocks) is reported as undecided (exit 2).
+from the serial one; block edges that reach the number of indices only in exact arithmetic; a name the code after the split definitely reads
+where one arm left it unbound; a chunk size below 1 in a world that reaches the pool call - reported with the witness).  A partition of the index
+space the rules do not understand (a task index mapped through something else than the identity or recognised consecutive blocks), a read after
+the split that depends on undecided tests, a result iterator handed to an unknown consumer are reported as undecided (exit 2).
 
-All six rules read one exact symbolic execution of `srs.srs` and `fdepsd.fdepsd` (verifier/c09_sim.py): every path through the parent up
+All rules read one exact symbolic execution of `srs.srs` and `fdepsd.fdepsd` (verifier/c09_sim.py): every path through the parent up
 to the statement that joins the parallel and the serial arm, with the pool executed as fork + initializer + one symbolic task.  The rules
 speak about *objects and values* (which array a store lands on - through helper calls, views and `out=` -, which term is stored, which
 process global was bound by which initializer call), never about how the worker bodies are spelled."""
@@ -17,6 +19,7 @@ from .core import AnchorError, Unsupported
 from .e1_srcmodel import qualname_of
 from .c09_terms import World, Unsup, is_tag, is_const, subterms, contains, show, NONE, ZEROS, EMPTY
 from .c09_blocks import norm as bnorm, fragile, Facts, length_of, _lin_parts
+from .c09_chunks import expand_calls, search
 from .c09_run import (explore, join_index, live_in, compatible, equal_mod_alloc, diff_text, resolve, mode_atoms, extend_join, first_use, tail_test,
                       READ, MAYREAD)
 
@@ -137,6 +140,16 @@ def comparable_diff(a, b):
         return False
     facts = Facts()
     def length(t):
+        if is_tag(t, "min"):
+            # zip stops at the shortest: decided when the lengths differ by constants only
+            parts = [length(x) for x in t[1:]]
+            if any(x is None for x in parts):
+                return None
+            lins = [_lin_parts(bnorm(x)) for x in parts]
+            if all(d == lins[0][1] for _, d in lins):
+                c = min(c for c, _ in lins)
+                return bnorm(("bin", "Add", _unlin(lins[0][1]), ("c", "int", c)))
+            return None
         r = length_of(t, facts)
         if r is None and not any(is_tag(x, "min") for x in subterms(t)):
             r = bnorm(t)            # a length this algebra does not look into: an opaque non-negative integer
@@ -155,6 +168,13 @@ def comparable_diff(a, b):
     if not all(_is_size(k, facts) for k in d):
         return False
     return (c >= 0 and all(v > 0 for v in d.values())) or (c <= 0 and all(v < 0 for v in d.values()))
+
+
+def _unlin(d):
+    t = ("c", "int", 0)
+    for k, v in sorted(d.items(), key=repr):
+        t = ("bin", "Add", t, k if v == 1 else ("bin", "Mult", ("c", "int", v), k))
+    return t
 
 
 def _is_size(t, facts):
@@ -731,6 +751,54 @@ def r5_serial_equals_worker(ctx):
     ctx.assume("x += y, np.add(x, y, out=x) and x = x + y produce the same float64 array content")
     ctx.assume("A[s] = [e_0, ..., e_n-1] (a list of scalars as long as A[s]) stores what the loop A[s][k] = e_k stores; x.max() and numpy.max(x) are one "
                "computation; arguments equal to the documented default of a library routine may be left out")
+    ctx.assume("a sequence unpacked into n targets has n elements (otherwise the unpacking raises): f(*X, y) and `a, b = X; f(a, b, y)` are one call; "
+               "X.ravel() written through the flat view of a buffer is X written through the view shaped X.shape (C order); X[0:] holds what X holds")
+
+
+# ------------------------------------------------------------------------------------------------------------------- R6
+def r6_every_task_runs(ctx):
+    """every task handed to the pool is really run: the chunking argument of map / starmap (a chunk size of 0 makes Pool.map return at once without
+    running anything) and of imap / imap_unordered / Executor.map (a chunk size below 1 raises ValueError) is absent, None, or at least 1 in every
+    world in which the call is reached with at least one task (verifier/c09_chunks.py: finite world evaluation, callee paths expanded)"""
+    an = analysis(ctx)
+    ag = Agg(ctx)
+    undecided = set()
+    for q, lf, L in launches(an):
+        w = wname(L)
+        how = getattr(L, "how", None) or "map"
+        chunk = getattr(L, "chunk", None)
+        if chunk is None or chunk == NONE:
+            ag.add(f"{q}: pool.{how} that runs {w} leaves the chunk size to the pool (every task is handed out)", True, L.node)
+            continue
+        txt = (f"{q}: the chunk size handed to pool.{how} that runs {w} is at least 1 wherever the call is reached with at least one task "
+               "(checked on a grid of small worlds: integers up to 8, None, both outcomes of opaque tests; callee paths expanded)")
+        cnt = getattr(L, "ntasks", None) if L.block is not None else L.count
+        terms = {"chunk": lf.term(chunk)}
+        if cnt is not None:
+            terms["count"] = lf.term(cnt)
+        conds = [(lf.sim.resolve(a), v) for a, v in lf.assign.items()]
+        cases = expand_calls(an.world, explore, terms, conds)
+        if cases is None:
+            undecided.add((txt + ": a function called on the way to the chunk size could not be followed", L.node))
+            continue
+        effect = ("Pool.%s cuts the task list into batches of that size: with 0 there is no batch, the call returns at once and not a single task "
+                  "has run - the parent reads the untouched shared buffers" % how) if how in ("map", "starmap", "map_async") else \
+                 ("pool.%s raises ValueError for a chunk size below 1: the parallel mode fails where the serial loop computes" % how)
+        verdicts = [(search(t["chunk"], t.get("count"), cs), desc) for t, cs, desc in cases]
+        wit = [(v, d) for v, d in verdicts if v[0] == "witness"]
+        und = [(v, d) for v, d in verdicts if v[0] == "undecided"]
+        if wit:
+            ag.add(txt, False, L.node, {"chunk size": show(lf.term(chunk))[:200], "world": wit[0][0][1], "path": wit[0][1], "effect": effect})
+        elif und and not any(v[0] == "ok" for v, _ in verdicts):
+            undecided.add((txt + f": not decided ({und[0][0][1]})", L.node))
+        elif und:
+            # some callee paths could not be evaluated, the others are fine: say so
+            undecided.add((txt + f": not decided on the path {'; '.join(und[0][1])[:200]} ({und[0][0][1]})", L.node))
+        else:
+            ag.add(txt, True, L.node)
+    ag.flush()
+    for text, node in sorted(undecided, key=lambda x: x[0]):
+        ctx.error(text, node, "undecided")
 
 
 RULES = [
@@ -740,6 +808,7 @@ RULES = [
     ("C09-R4", r4_lifecycle, 30),
     ("C09-R4b", r4b_shared_buffer_io, 8),
     ("C09-R5", r5_serial_equals_worker, 14),
+    ("C09-R6", r6_every_task_runs, 2),
 ]
 LEVEL = "proof"
 TRUSTED = ["CPython ast", "verifier/c09_sim.py exact symbolic execution (heap of array objects, views, helper calls followed, pool = fork + initializer + one symbolic task)",
@@ -749,12 +818,15 @@ TRUSTED = ["CPython ast", "verifier/c09_sim.py exact symbolic execution (heap of
            "scipy.signal.lfilter and the numpy reductions, x.max() == numpy.max(x) for arrays, float / 'f8' / numpy.float64 name one dtype, "
            "numpy.linspace returns its end points exactly",
            "verifier/c09_blocks.py index algebra for tasks that own a block of indices: integer + - * // are exact, a true division is rounded, "
-           "int()/floor/ceil of a rounded value is never assumed to hit the intended integer"]
+           "int()/floor/ceil of a rounded value is never assumed to hit the intended integer",
+           "CPython multiprocessing: Pool.map / starmap with chunksize <= 0 return without running a task, imap / imap_unordered / Executor.map raise "
+           "ValueError for chunksize < 1 (verifier/c09_chunks.py evaluates the chunk size on a finite grid of worlds with Python integer arithmetic)"]
 EXPLANATION = ("Bernstein's conditions proved from the source for every schedule and worker count: each task touches written shared arrays only at "
                "its own task index on one fixed axis, never mutates read-only inputs or views of them (through helpers, views and out= alike), has no "
                "other output channel, results of the pool iterator reach nothing; the pool lifecycle orders parent writes before and reads after, and "
                "every process global a task reads is bound by the initializer of the same launch; and for every pair of a parallel and a serial path "
-               "under the same conditions the content of every array read afterwards is the same exact expression tree.")
+               "under the same conditions the content of every array read afterwards is the same exact expression tree; and no pool call is "
+               "handed a chunk size below 1 in a world that reaches it with at least one task.")
 MANIFEST = {
     "text": "Proved statically for every worker count and completion order (under the stated determinism assumptions): tasks commute (disjoint writes by task index, "
             "read-only inputs, no other channel, results discarded) and each parallel task computes exactly the expression DAG of the serial iteration "
